@@ -52,3 +52,73 @@ CHECKS["C12"] = {
 }
 
 NOT_APPLICABLE = {}
+
+
+def _add(pid, engine, technique, text, note, category="exploration"):
+    CHECKS[pid] = {"engine": engine, "technique": technique, "text": text, "note": note, "category": category}
+
+
+_add(
+    "C33", "refssh",
+    PBT + ": round-trip + independent wire-layout parse (filexfer-02) of generated attribute sets",
+    "Generated attribute sets (all presence combinations, boundary-dense 32/64-bit values, float times, bytes/str extended maps) are packed from a "
+    "reused SFTPAttributes, the wire bytes are parsed by the independent refssh Reader against the flag bits/layout, decoded with _from_msg, compared "
+    "field by field and re-encoded. Exploration: 4k quick / 1.6M thorough cases.",
+    "Trusts refssh.Reader and the harness' flag table (copied from draft-ietf-secsh-filexfer-02). Decoding into a dirty object is not generated "
+    "(paramiko never does that); stale state is covered by re-filling and re-packing one object.",
+)
+_add(
+    "C34", "core",
+    PBT + ": grammar-based path generation, validity predicate (independent stack walk + os.path.commonpath)",
+    "Path strings from a grammar over '/', '//', '.', '..', names, dotted names, empty components (<=40 tokens) plus arbitrary unicode/NUL text go "
+    "through the default canonicalize(); the result must be absolute, free of '.'/'..' components and stay inside four served roots.",
+    "POSIX normpath's leading '//' is accepted. The 'no empty component' clause comes from DESIGN.md and has its own clause name.",
+)
+_add(
+    "C42", "core",
+    PBT + ": differential testing against io.BytesIO (reads) and a prefix/complete-delivery model (writes)",
+    "Generated read/readline/iterate/readlines/write/flush programs on a BufferedFile subclass (and ChannelFile/ChannelStderrFile/ChannelStdinFile over a fake "
+    "channel) whose underlying stream delivers/accepts generated chunk sizes, for every bufsize class and mode; every return value equals io.BytesIO's, "
+    "written bytes are a prefix at all times, complete by flush/close, immediate when unbuffered, through the last newline when line-buffered.",
+    "Universal-newline mode is outside the statement; text mode uses ASCII streams; close only as final action; readlines(hint<=0) not generated.",
+)
+_add(
+    "C43", "core",
+    PBT + ": generated moduli files and (min,prefer,max) requests against an independent re-implementation of the acceptance and selection rules",
+    "Moduli files with valid, rule-violating, wrong-size and malformed lines over 16 bit lengths are loaded through ModulusPack.read_file; each generated "
+    "request (incl. inverted and out-of-range triples) is asked 20 times; the offered (g,p) must be a valid line of the size the statement prescribes.",
+    "Only ModulusPack is exercised (kex_gex clamps min to prefer before calling it; that is outside C43's anchor). The reference rule is ~30 lines in props/c43.py.",
+)
+_add(
+    "C44", "core",
+    PBT + ": generated source scripts, exact-history oracle (order, stop at first success, identity of recorded outcomes)",
+    "0-8 generated sources (returning values or raising one of 10 exception types) behind a generator-based get_sources; pulls and calls are logged and "
+    "compared with the returned AuthResult / AuthFailure.result by identity.",
+    "Sources are harness objects implementing AuthSource.authenticate; no transport involved.",
+)
+_add(
+    "C45", "refssh",
+    PBT + ": fake agent connection; request bytes parsed by an independent reader; reply fuzzing (every reply type, chunked recv, EOF at any offset)",
+    "For every pool key / certificate blob / unknown key type and every algorithm name (incl. near misses) the bytes AgentKey.sign_ssh_data writes are parsed "
+    "with refssh.Reader and compared with the expected blob, data and SHA-2 flag; the return value or raised exception is checked against the scripted reply.",
+    "Public blobs are derived with `cryptography`, certificates come from tests/_support. For RSA certificates AgentKey deliberately sends the plain key blob; the oracle "
+    "requires key.asbytes() == independently extracted (e,n) blob.",
+)
+_add(
+    "C10", "net+peers",
+    PBT + ": generated traffic programs on scaled-down rekey thresholds; wire-log oracle via independent decryption (Tap)",
+    "Transport(packetizer_class=SmallPacketizer) lowers only the four rekey class constants. Generated traffic (either/both directions, IGNORE bursts, keepalive idle, "
+    "four cipher/MAC classes) must show, in the Tap-decoded wire log, a KEXINIT from the side whose per-epoch packet/byte count crossed the threshold, completed exchanges, "
+    "restarted counters and intact traffic; a refusing puppet peer must get the tested side dropped within the overflow allowance (+20 packets) and not before.",
+    "Timing: 'never' is judged after 12 s (120x the 0.1 s poll) and three failing runs. Peer bursts are clipped below the overflow allowance (paramiko counts it from the moment it "
+    "wants to rekey). Only the tested side has lowered thresholds.",
+)
+_add(
+    "C11", "net+peers",
+    PBT + ": forced crossing orders with a latency-held link; exhaustive M-kind x role enumeration + generated remaining dimensions; Tap-decoded wire-order oracle",
+    "The peer's in-flight connection-layer message(s) M (21 kinds + own keepalive, both roles) are held on the link, the tested side's KEXINIT is triggered (4 modes), user "
+    "operations are queued, then M and the rest are released in generated portions. In the independently decrypted ordered log of the tested side only types 1..49 may occur "
+    "between its KEXINIT and NEWKEYS, the exchange completes, both sides stay active, queued operations complete and due replies appear after NEWKEYS.",
+    "clear_to_send_timeout is set to 2 s on the tested instance (time scale only). Real-thread interleavings inside Transport.run are influenced (held link), not owned. "
+    "Unlisted signatures are re-run twice before being reported.",
+)
